@@ -256,24 +256,52 @@ class RecordingClient:
         self._inner = inner
         self.prefix = inner.prefix
         self.log: list = []
+        self.after_post = None
 
     def post(self, url, **kw):
         r = self._inner.post(url, **kw)
         self.log.append({"url": url, "status": r.status_code, "headers": {k.lower(): v for k, v in r.headers.items()},
                          "body": r.content})
+        if self.after_post is not None:
+            self.after_post()
         return r
 
     def __getattr__(self, name):
         return getattr(self._inner, name)
 
 
+class AlternatingClient:
+    """Two in-process apps (two workers sharing the token key): successive requests alternate between them."""
+
+    def __init__(self, inners: list) -> None:
+        self._inners = inners
+        self.prefix = inners[0].prefix
+        self.n = 0
+
+    def post(self, url, **kw):
+        c = self._inners[self.n % len(self._inners)]
+        self.n += 1
+        return c.post(url, **kw)
+
+    def __getattr__(self, name):
+        return getattr(self._inners[0], name)
+
+
 class HttpWorld:
-    def __init__(self, server: RpcServer | None = None, **kw) -> None:
+    """In-process HTTP deployment.  workers=2: two apps over two RpcServer instances sharing the token key, requests
+    alternate between them (every continuation of a stream lands on the worker that did not serve the turn before)."""
+
+    def __init__(self, server: RpcServer | None = None, workers: int = 1, **kw) -> None:
         from vgi_rpc.http import http_connect
         from vgi_rpc.http._testing import make_sync_client
 
         self.server = server or new_server()
-        self.client = RecordingClient(make_sync_client(self.server, token_key=b"k" * 32, **kw))
+        self.inners = [make_sync_client(self.server, token_key=b"k" * 32, **kw)]
+        for _ in range(workers - 1):
+            self.inners.append(make_sync_client(new_server(), token_key=b"k" * 32, **kw))
+        self.inner = self.inners[0] if workers == 1 else AlternatingClient(self.inners)
+        self.client = RecordingClient(self.inner)
+        self.after_post = None            # optional hook run after every request of the main client
         self._cm = http_connect(ErrSvc, client=self.client)
         self.px = self._cm.__enter__()
 
